@@ -230,7 +230,9 @@ static bool s_parse_rfc_822(
                     state = ON_SPACE_DELIM;
                     state_start_index = index + 1;
                 } else if (aws_isdigit(c)) {
+                    /* no week day: this digit already is the first digit of the month day */
                     state = ON_MONTH_DAY;
+                    parsed_time->tm_mday = c - '0';
                 } else if (!aws_isalpha(c)) {
                     error = true;
                 }
